@@ -1,6 +1,7 @@
 package props
 
 import (
+	"bufio"
 	"bytes"
 	"encoding/base64"
 	"encoding/binary"
@@ -40,6 +41,7 @@ type ioArtefact struct {
 	Tokens     [][]byte // sealed tokens inside a container, in stream order
 	Huge       bool     // > 64 KiB: positional faults are enumerated at every offset, the E3 search is skipped
 	Giant      bool     // >= 1 MiB: only the fault-free chunkings (whole, 4 KiB, 64 KiB, 1 MiB - 1) are compared
+	Many       bool     // many small blocks: positional sweeps visit the offsets around every block boundary and one inside every block
 }
 
 func viewString(tok any, c *cid.Cid) string {
@@ -63,16 +65,17 @@ func containerView(r container.Reader) string {
 }
 
 var ioTokenSpecs = map[string]TokSpec{
-	"dlg":      {Kind: "dlg", Alg: "ed25519", Opts: map[string]string{"pol": "eq", "nonce": "12", "meta": "k=str-ascii"}},
-	"inv":      {Kind: "inv", Alg: "ed25519", Opts: map[string]string{"args": "k=int1", "nonce": "12", "iat": "whole", "meta": "k=str-astral"}},
-	"dlg3":     {Kind: "dlg", Alg: "ed25519", Key: 1, Opts: map[string]string{"nonce": "64", "sub": "other", "cmd": "/a/b"}},
-	"dlgbig":   {Kind: "dlg", Alg: "ed25519", Opts: map[string]string{"nonce": "64", "meta": "k=str-600"}},
-	"dlghuge":  {Kind: "dlg", Alg: "ed25519", Key: 2, Opts: map[string]string{"nonce": "12", "meta": "k=bytes-70k"}},
-	"dlg1m":    {Kind: "dlg", Alg: "ed25519", Key: 1, Opts: map[string]string{"nonce": "12", "size:meta-bytes": "1048576"}},
-	"inv1m":    {Kind: "inv", Alg: "ed25519", Opts: map[string]string{"nonce": "12", "iat": "none", "size:arg-str": "1100000"}},
-	"dlg2":     {Kind: "dlg", Alg: "p256", Opts: map[string]string{"nonce": "12", "sub": "other", "meta": "k=str-invtag"}},
-	"dlgrsa8k": {Kind: "dlg", Alg: "ed25519", Opts: map[string]string{"nonce": "12", "aud": "rsa8192"}},
-	"inv2":     {Kind: "inv", Alg: "secp256k1", Opts: map[string]string{"nonce": "12", "iat": "none", "prf": "odd", "args": "k=str-dlgtag"}},
+	"dlg":        {Kind: "dlg", Alg: "ed25519", Opts: map[string]string{"pol": "eq", "nonce": "12", "meta": "k=str-ascii"}},
+	"inv":        {Kind: "inv", Alg: "ed25519", Opts: map[string]string{"args": "k=int1", "nonce": "12", "iat": "whole", "meta": "k=str-astral"}},
+	"dlg3":       {Kind: "dlg", Alg: "ed25519", Key: 1, Opts: map[string]string{"nonce": "64", "sub": "other", "cmd": "/a/b"}},
+	"dlgbig":     {Kind: "dlg", Alg: "ed25519", Opts: map[string]string{"nonce": "64", "meta": "k=str-600"}},
+	"dlghuge":    {Kind: "dlg", Alg: "ed25519", Key: 2, Opts: map[string]string{"nonce": "12", "meta": "k=bytes-70k"}},
+	"dlg1m":      {Kind: "dlg", Alg: "ed25519", Key: 1, Opts: map[string]string{"nonce": "12", "size:meta-bytes": "1048576"}},
+	"inv1m":      {Kind: "inv", Alg: "ed25519", Opts: map[string]string{"nonce": "12", "iat": "none", "size:arg-str": "1100000"}},
+	"dlg2":       {Kind: "dlg", Alg: "p256", Opts: map[string]string{"nonce": "12", "sub": "other", "meta": "k=str-invtag"}},
+	"dlgsamesec": {Kind: "dlg", Alg: "ed25519", Key: 2, Opts: map[string]string{"nonce": "12", "nbf": "subsec", "exp": "subsec-up"}}, // not-before and expiration inside one wall-clock second
+	"dlgrsa8k":   {Kind: "dlg", Alg: "ed25519", Opts: map[string]string{"nonce": "12", "aud": "rsa8192"}},
+	"inv2":       {Kind: "inv", Alg: "secp256k1", Opts: map[string]string{"nonce": "12", "iat": "none", "prf": "odd", "args": "k=str-dlgtag"}},
 }
 
 type sealedTok struct {
@@ -184,6 +187,21 @@ func ioArtefacts() []ioArtefact {
 		r = append(r, buildContainer(f, []string{"dlg"}))
 	}
 	r = append(r, buildContainer("car", nil), buildContainer("cbor", nil))
+	// a CAR of 70 small tokens (more blocks than any look-ahead queue or worker pool is likely to hold): faults are
+	// injected around every block boundary and inside every block
+	{
+		w := container.NewWriter()
+		for _, t := range c17ManyTokens()[:70] {
+			w.AddSealed(t.Cid, t.Sealed)
+		}
+		car, err := w.ToCar()
+		if err != nil {
+			panic(err)
+		}
+		m := ioArtefact{Name: "ctn-car-70", Kind: "ctn", Format: "car", Data: car, Huge: true, Many: true}
+		m.Boundaries = carBoundaries(car)
+		r = append(r, m)
+	}
 	// the 3-token CAR with every section length written as a padded (non-minimal) varint: whatever a reader
 	// makes of such a file, it makes the same of it from memory and from a stream in any chunking
 	padded := padCarLengths(buildContainer("car", []string{"dlg", "inv", "dlg3"}).Data)
@@ -225,6 +243,18 @@ func (a ioArtefact) fix(kind string) ioArtefact {
 // offsets within 300 bytes of either end, within 40 of a section boundary, within 4 of a multiple of 4096
 // (buffer sizes) and every 389th one inside the big opaque section body.
 func c18HugeSkip(a ioArtefact, k int) bool {
+	if a.Many {
+		// kept: within 2 bytes of a block boundary, the middle of each block (boundary + 100), and both ends
+		if k < 4 || k > len(a.Data)-4 {
+			return false
+		}
+		for b := range a.Boundaries {
+			if (k >= b-2 && k <= b+2) || k == b+100 {
+				return false
+			}
+		}
+		return true
+	}
 	return k%389 != 0 && k > 300 && k < len(a.Data)-300 && !c18NearBoundary(a, k) && k%4096 > 4 && k%4096 < 4092
 }
 
@@ -629,7 +659,10 @@ func c18ReadSub() *engine.Sub {
 				mode := strings.TrimPrefix(cs.Mode, "pos-")
 				for k := lo; k <= hi; k++ {
 					for _, ch := range []int{0, 1} {
-						if a.Huge && (ch == 1 || (k%97 != 0 && k > 600 && k < len(a.Data)-600 && !c18NearBoundary(a, k))) {
+						if a.Many && (ch == 1 || c18HugeSkip(a, k)) {
+							continue
+						}
+						if a.Huge && !a.Many && (ch == 1 || (k%97 != 0 && k > 600 && k < len(a.Data)-600 && !c18NearBoundary(a, k))) {
 							// huge artefacts: every offset within 600 bytes of either end and of every section
 							// boundary, every 97th offset inside the big section body (its content is opaque to the reader)
 							continue
@@ -887,9 +920,9 @@ func c18WriteSub() *engine.Sub {
 	}
 	return &engine.Sub{
 		Name: "writers",
-		Rule: "every streaming encoder (ToSealedWriter, ToDagCborWriter, ToDagJsonWriter on a delegation and an invocation; the four container writers on 0, 1 and 3 tokens): fault-free, the sink receives the buffered API's bytes (same token set for multi-token containers) and the reported CID is the content address of the sink bytes; with a write error injected at write call i - sticky (every later write fails too), as a short write, and transient (only that write fails and takes nothing, later writes succeed) - for every i in [1, N] where N is the number of Write calls of the fault-free run (the last one being the final flush), the call returns an error; non-trivial = executions with an injected fault",
+		Rule: "every streaming encoder (ToSealedWriter, ToDagCborWriter, ToDagJsonWriter on a delegation and an invocation; the four container writers on 0, 1 and 3 tokens): fault-free, the sink receives the buffered API's bytes (same token set for multi-token containers) and the reported CID is the content address of the sink bytes - also when the sink is a *bytes.Buffer or *bufio.Writer that already holds data, or receives two messages in a row (the CID is the address of what THIS call appended); with a write error injected at write call i - sticky (every later write fails too), as a short write, and transient (only that write fails and takes nothing, later writes succeed) - for every i in [1, N] where N is the number of Write calls of the fault-free run (the last one being the final flush), the call returns an error; non-trivial = executions with an injected fault",
 		Bound: func(string) string {
-			return "18 writer APIs x every write call x {sticky error, short write, transient error}"
+			return "18 writer APIs x (3 pre-filled sinks + every write call x {sticky error, short write, transient error, EINTR / EAGAIN short and empty})"
 		},
 		Setup: setup,
 		Gen: func(tier string, emit func(any) bool) {
@@ -936,6 +969,49 @@ func c18WriteSub() *engine.Sub {
 				}
 				if cidStr != "" && (cidStr != refCID(clean.Buf).String() || cidStr != bcid) {
 					ctx.Failf(cs, "writer-cid-wrong/"+api.Name, "%s reported CID %s; sink bytes hash to %s; buffered CID %s", api.Name, cidStr, refCID(clean.Buf), bcid)
+				}
+				// the sink as the standard library's own writers that already hold data (a frame header, an earlier
+				// message): what THIS call appends - and the CID it reports - is what a fresh sink would have received
+				for _, kind := range []string{"bytes.Buffer", "bufio.Writer", "bytes.Buffer-twice"} {
+					var pre bytes.Buffer
+					pre.WriteString("frame-header:")
+					var cid2 string
+					var err2 error
+					before := pre.Len()
+					switch kind {
+					case "bytes.Buffer":
+						cid2, err2 = api.Stream(&pre)
+					case "bufio.Writer":
+						bw := bufio.NewWriterSize(&pre, 64)
+						bw.WriteString("x")
+						before++
+						if cid2, err2 = api.Stream(bw); err2 == nil {
+							err2 = bw.Flush()
+						}
+					default:
+						if _, err2 = api.Stream(&pre); err2 == nil {
+							before = pre.Len()
+							cid2, err2 = api.Stream(&pre)
+						}
+					}
+					ctx.Eval(1)
+					if err2 != nil {
+						ctx.Failf(cs, "writer-fails-without-fault/"+api.Name, "%s fails writing into a %s that already holds data: %v", api.Name, kind, err2)
+						continue
+					}
+					wrote := pre.Bytes()[before:]
+					okBytes := bytes.Equal(wrote, clean.Buf)
+					if !okBytes && api.SetOf != nil {
+						x, e1 := api.SetOf(wrote)
+						y, e2 := api.SetOf(clean.Buf)
+						okBytes = e1 == nil && e2 == nil && x == y && len(wrote) == len(clean.Buf)
+					}
+					if !okBytes {
+						ctx.Failf(cs, "stream-bytes-differ-from-buffered/"+api.Name, "%s appended %d bytes to a %s that already held data; a fresh sink receives %d other bytes", api.Name, len(wrote), kind, len(clean.Buf))
+					}
+					if cid2 != "" && cid2 != refCID(wrote).String() {
+						ctx.Failf(cs, "writer-cid-wrong/"+api.Name, "%s into a %s that already held %d bytes reported CID %s; the %d bytes it appended hash to %s", api.Name, kind, before, cid2, len(wrote), refCID(wrote))
+					}
 				}
 				return
 			}
